@@ -340,6 +340,29 @@ func (ft *FT) call(st *State, guard Term, c *ssa.CallCommon, preArgs []Term, ins
 			ft.safety("nil", pos, guard, not(eq(app("dyn", args[0]), "0")))
 		}
 	}
+	// lock discipline at call sites: the callee locks a mutex of one of its parameters, so the caller
+	// must not hold it (a second Lock, or an RLock behind a waiting writer, never returns). Required
+	// where the locked object is one of the caller's own parameters (whose mutexes are known to be free
+	// at entry), advisory for other objects.
+	if ft.con != nil && !ft.con.HoldsLock && callee != nil && callee.Blocks != nil && callee != ft.fn {
+		if cc := ft.eng.cons.Funcs[name]; cc == nil || !cc.HoldsLock {
+			if pls := directParamLocks(callee); len(pls) > 0 {
+				cctx := ft.calleeCtx(callee, nil, c, args, st, st)
+				for _, txt := range pls {
+					pn := txt[len("addr("):strings.Index(txt, ".")]
+					own := false
+					for k, cp := range callee.Params {
+						if cp.Name() == pn && k < len(c.Args) {
+							_, own = c.Args[k].(*ssa.Parameter)
+						}
+					}
+					if l, ok := ft.lockExprTerm(cctx, txt); ok {
+						ft.oblige("lock-reentry@call", pos, name+": "+txt, guard, eq(app("select", ft.get(st, heldKey(ft)), l), "0"), own && ft.lockDiscipline())
+					}
+				}
+			}
+		}
+	}
 	if ft.con != nil && ft.con.CallPre != nil {
 		if cls := ft.con.CallPre[name]; len(cls) > 0 {
 			ctx := ft.specCtx(st, ft.entry)
